@@ -13,6 +13,11 @@ A *case* is a JSON-able dict:
               RepeatingEngine leaves behind: at most 5, contiguous, the oldest pruned) when references are resolved
   stream_refs [[consumer id, reference string, repeating producer id], ...]  `:output` references WITHOUT a file name
               to such components, by construction
+  shadow      None | {stages: T, vars: {X: {global, alt_global, overrides: {stage: token}, alt_overrides: {..}}},
+              derived: [[stage B, D, X]], replicate: None | {...}}   cross-stage variable shadowing (see
+              add_shadow_family_flowir): X is global and overridden in SOME stages; OTHER stages define a stage
+              variable D = %(X)s without defining X.  Values are unique tokens so that the scope a value came from
+              can be read off any resolved text.
 Ground truth known by construction: `expected_user_variables(case)` = fold in the given order, last wins.
 Nothing here looks at the repository code.
 """
@@ -179,9 +184,145 @@ def add_repeat_family_flowir(r: random.Random, doc: Dict[str, Any], n_stages: in
     return streams, stream_refs
 
 
+
+# ----------------------------------------------------------------------------- cross-stage variable shadowing
+
+SHADOW_NAMES = ["sh", "sh-a", "shb", "sh3", "S-h", "zsh", "ash", "sh_x", "msh", "sh10"]
+
+
+def shadow_token_stage(tok: str):
+    """'o<stage>-xv<k>' / 'oa<stage>-xv<k>' -> stage whose variables (default / platform section) hold that token;
+    None for global tokens ('g-xv<k>', 'ga-xv<k>')."""
+    import re
+    m = re.fullmatch(r"oa?(\d+)-xv\d+", tok)
+    return int(m.group(1)) if m else None
+
+
+def add_shadow_family_flowir(r: random.Random, doc: Dict[str, Any], n_stages: int, use_alt: bool,
+                             files: Dict[str, str]) -> Dict[str, Any]:
+    """Variables xv<k> defined at GLOBAL level and overridden in the stage variables of SOME stages (default and/or
+    platform section); OTHER stages define stage variables dv<k>_<B> = %(xv<k>)s without defining xv<k>.  These feed
+    arguments, a data-file reference, an environment value and a replicate count.  At least 3 stages (stages are
+    appended when the package has fewer) and, by construction, two variables whose (overriding stage, deriving stage)
+    pairs point in OPPOSITE directions, so that whatever order the stages are visited in, one deriving stage is
+    visited after a stage that overrides its source."""
+    comps = doc["components"]
+    T = max(3, n_stages) + (1 if r.random() < 0.25 else 0)
+    used: Dict[int, List[str]] = {}
+    for c in comps:
+        used.setdefault(c["stage"], []).append(c["name"])
+    v = doc["variables"]
+    dglob = v["default"]["global"]
+    dst = v["default"].setdefault("stages", {})
+    if use_alt:
+        v.setdefault("alt", {})
+    envs = sorted(doc["environments"]["default"])
+
+    def fresh(stage):
+        name = r.choice([n for n in SHADOW_NAMES if n not in used.get(stage, [])])
+        used.setdefault(stage, []).append(name)
+        return name
+
+    nvars = r.choice([2, 3, 4])
+    info: Dict[str, Any] = {"stages": T, "vars": {}, "derived": [], "replicate": None}
+    stages = list(range(T))
+    s1, s2 = r.sample(stages, 2)
+    for k in range(nvars):
+        x = "xv%d" % k
+        if k == 0:
+            over, derive = [s1], [s2]
+        elif k == 1:
+            over, derive = [s2], [s1]      # the opposite direction
+        else:
+            over = r.sample(stages, r.choice([1, 1, 2]))
+            rest = [s for s in stages if s not in over]
+            derive = r.sample(rest, min(len(rest), r.choice([1, 2])))
+        # a third stage neither overrides nor derives ... or derives as well
+        others = [s for s in stages if s not in over and s not in derive]
+        if others and r.random() < 0.5:
+            derive.append(r.choice(others))
+        xi = {"global": "g-%s" % x, "alt_global": None, "overrides": {}, "alt_overrides": {}}
+        dglob[x] = xi["global"]
+        if use_alt and r.random() < 0.4:
+            xi["alt_global"] = "ga-%s" % x
+            v["alt"].setdefault("global", {})[x] = xi["alt_global"]
+        for a in over:
+            where = r.choice(["default", "alt", "both"]) if use_alt else "default"
+            if where in ("default", "both"):
+                xi["overrides"][a] = "o%d-%s" % (a, x)
+                dst.setdefault(a, {})[x] = xi["overrides"][a]
+            if where in ("alt", "both"):
+                xi["alt_overrides"][a] = "oa%d-%s" % (a, x)
+                v["alt"].setdefault("stages", {}).setdefault(a, {})[x] = xi["alt_overrides"][a]
+            # a component of the overriding stage that uses X (it may see the override)
+            comps.append({"name": fresh(a), "stage": a,
+                          "command": {"executable": r.choice(EXES), "arguments": "over %%(%s)s" % x}})
+        info["vars"][x] = xi
+        # every possible value names a data file so that a variable-spelled reference always points to a file
+        for tok in [xi["global"], xi["alt_global"]] + list(xi["overrides"].values()) + list(xi["alt_overrides"].values()):
+            if tok:
+                files["data/%s.txt" % tok] = "data for %s\n" % tok
+        for b in derive:
+            d = "dv%d_%d" % (k, b)
+            section = "alt" if (use_alt and r.random() < 0.25) else "default"
+            if section == "alt":
+                v["alt"].setdefault("stages", {}).setdefault(b, {})[d] = "%%(%s)s" % x
+                # the variable must exist on the default platform too (the package is loaded with either)
+                dst.setdefault(b, {})[d] = "%%(%s)s" % x
+            else:
+                dst.setdefault(b, {})[d] = "%%(%s)s" % x
+            info["derived"].append([b, d, x])
+            args = [r.choice(LITS), "%%(%s)s" % d]
+            if r.random() < 0.5:
+                args.append("%%(%s)s" % x)          # X itself, seen from a stage that does not define it
+            c: Dict[str, Any] = {"name": fresh(b), "stage": b}
+            if r.random() < 0.4:
+                ref = "data/%%(%s)s.txt:ref" % d     # a reference spelled through the derived variable
+                c["references"] = [ref]
+                args.append(ref)
+            if r.random() < 0.3:
+                c["variables"] = {"cvd": "c-%%(%s)s" % d}   # component variable built from it
+                args.append("%(cvd)s")
+            r.shuffle(args)
+            c["command"] = {"executable": r.choice(EXES), "arguments": " ".join(args)}
+            if envs and r.random() < 0.5:
+                c["command"]["environment"] = r.choice(envs)
+            comps.append(c)
+    # an environment value spelled through a shadowed global
+    if envs and r.random() < 0.7:
+        doc["environments"]["default"][r.choice(envs)]["XV_ENV"] = "%(xv0)s"
+    # a replicate count that comes from a derived stage variable (names and edges depend on it)
+    if r.random() < 0.6:
+        a, b = r.sample(stages, 2)
+        gval, oval = r.choice([(2, 3), (1, 2), (3, 1)])
+        dglob["xvr"] = gval
+        dst.setdefault(a, {})["xvr"] = oval
+        dst.setdefault(b, {})["dvr"] = "%(xvr)s"
+        alt_g = None
+        if use_alt and r.random() < 0.3:
+            alt_g = 4
+            v["alt"].setdefault("global", {})["xvr"] = alt_g
+        src, wrk, agg = "psrc-x", "pwork-x", "pagg-x"
+        comps.append({"name": fresh(a), "stage": a, "command": {"executable": "echo", "arguments": "n %(xvr)s"}})
+        comps.append({"name": src, "stage": b, "command": {"executable": "echo", "arguments": "r %(replica)s of %(dvr)s"},
+                      "workflowAttributes": {"replicate": "%(dvr)s"}})
+        comps.append({"name": wrk, "stage": b, "references": ["%s:output" % src],
+                      "command": {"executable": "echo", "arguments": "%s:output" % src}})
+        comps.append({"name": agg, "stage": b, "references": ["%s:ref" % wrk],
+                      "command": {"executable": "ls", "arguments": "%s:ref" % wrk},
+                      "workflowAttributes": {"aggregate": True}})
+        info["replicate"] = {"over_stage": a, "stage": b, "source": src, "worker": wrk, "global": gval,
+                             "alt_global": alt_g, "override": oval}
+    # every stage has at least one component
+    for s_ in stages:
+        if not any(c["stage"] == s_ for c in comps):
+            comps.append({"name": fresh(s_), "stage": s_, "command": {"executable": "true", "arguments": "-n"}})
+    return info
+
+
 # ----------------------------------------------------------------------------- FlowIR
 
-def gen_flowir(r: random.Random, force_repeat: bool = False) -> Dict[str, Any]:
+def gen_flowir(r: random.Random, force_repeat: bool = False, force_shadow: bool = False) -> Dict[str, Any]:
     n_stages = r.choice([1, 2, 2, 3])
     gvars = ["uv%d" % i for i in range(r.choice([2, 3, 4]))]
     svars = ["sv%d" % i for i in range(r.choice([1, 2]))]
@@ -301,9 +442,16 @@ def gen_flowir(r: random.Random, force_repeat: bool = False) -> Dict[str, Any]:
     case["streams"], case["stream_refs"] = {}, []
     if force_repeat or r2.random() < 0.4:
         case["streams"], case["stream_refs"] = add_repeat_family_flowir(r2, doc, n_stages, data_files)
-    case["klass"] = "flowir:st%d:rep%d:alt%d:vf%d:dupvf%d:obs%d" % (
+    # cross-stage variable shadowing: drawn after everything else (again under its own sub-rng)
+    r3 = random.Random(r.getrandbits(64))
+    case["shadow"] = None
+    if force_shadow or r3.random() < 0.3:
+        case["shadow"] = add_shadow_family_flowir(r3, doc, n_stages, use_alt, files)
+    sh = case["shadow"]
+    case["klass"] = "flowir:st%d:rep%d:alt%d:vf%d:dupvf%d:obs%d:shadow%s" % (
         n_stages, int(any("workflowAttributes" in c and "replicate" in c["workflowAttributes"] for c in comps)),
-        int(case["platform"] is not None), len(varfiles), int(len(order) != len(set(order))), len(case["streams"]))
+        int(case["platform"] is not None), len(varfiles), int(len(order) != len(set(order))), len(case["streams"]),
+        "-" if not sh else "%d.%d.%d" % (sh["stages"], len(sh["vars"]), int(sh["replicate"] is not None)))
     return case
 
 
@@ -501,7 +649,11 @@ def gen_case(r: random.Random, index: int) -> Dict[str, Any]:
         case = gen_dsl(r)
     else:
         # every other FlowIR / DOSINI package is guaranteed to carry a repeating component with archived streams
-        case = {"flowir": gen_flowir, "dosini": gen_dosini}[kind](r, force_repeat=(index % 10 < 5))
+        # (and 7 of 10 FlowIR packages cross-stage variable shadowing over >= 3 stages)
+        if kind == "flowir":
+            case = gen_flowir(r, force_repeat=(index % 10 < 5), force_shadow=(index % 10 in (0, 5, 7)))
+        else:
+            case = gen_dosini(r, force_repeat=(index % 10 < 5))
     case["index"] = index
     return case
 
